@@ -42,7 +42,7 @@ static void run_client(const unsigned char* s, size_t n, const size_t* cuts, int
       if (r.status == CBOR_DECODER_FINISHED) { consumed += r.read; wait = 0; delivered++; }
       else if (r.status == CBOR_DECODER_NEDATA) wait = r.required;
       else stopped = 1;
-      if (++guard > 200000) { fprintf(vh_out, "{\"e\":\"livelock\"}\n"); break; }
+      if (++guard > 4 * (long)n + 64) { fprintf(vh_out, "{\"e\":\"livelock\"}\n"); break; } /* every call either consumes bytes or follows an arrival */
       continue;
     }
     if (ci < ncuts) {
